@@ -298,18 +298,10 @@ func (its *PushPullHandler) recordUnrecordedOperations() {
 		return
 	}
 	// An insert that was interrupted in the middle of a transaction has stored only its beginning. Nobody was
-	// told that these operations are stored: they are removed (the last one first), and whoever pushed them
-	// pushes the whole transaction again.
-	if n := completeUnits(opList); n < len(opList) {
-		for i := len(sseqList) - 1; i >= n; i-- {
-			if _, err := its.managers.Mongo.DeleteOperation(its.ctx, datatypeDoc.DUID, uint32(sseqList[i])); err != nil {
-				return
-			}
-		}
-		its.ctx.L().Warnf("removed the first %d operations of a transaction of %s whose end was never stored", len(sseqList)-n, datatypeDoc.DUID)
-		if opList, sseqList = opList[:n], sseqList[:n]; n == 0 {
-			return
-		}
+	// told that these operations are stored: they are removed, and whoever pushed them pushes the whole
+	// transaction again.
+	if opList, sseqList = its.removeIncompleteTransaction(datatypeDoc, opList, sseqList); len(sseqList) == 0 {
+		return
 	}
 	its.adoptUnrecordedOperations(datatypeDoc, opList, sseqList)
 	datatypeDoc.Sseq.End = sseqList[len(sseqList)-1]
@@ -318,6 +310,26 @@ func (its *PushPullHandler) recordUnrecordedOperations() {
 		return
 	}
 	its.ctx.L().Warnf("recorded %d stored operations of %s that an interrupted push had left behind", len(sseqList), datatypeDoc.DUID)
+}
+
+// removeIncompleteTransaction drops the beginning of a transaction that an interrupted push has left beyond the
+// recorded end of the log, from the given operations and (the last one first) from the store.
+func (its *PushPullHandler) removeIncompleteTransaction(
+	datatypeDoc *schema.DatatypeDoc,
+	opList []*model.Operation,
+	sseqList []uint64,
+) ([]*model.Operation, []uint64) {
+	n := completeUnits(opList)
+	if n == len(opList) || sseqList[n] <= datatypeDoc.Sseq.End {
+		return opList, sseqList
+	}
+	for i := len(sseqList) - 1; i >= n; i-- {
+		if _, err := its.managers.Mongo.DeleteOperation(its.ctx, datatypeDoc.DUID, uint32(sseqList[i])); err != nil {
+			break // they stay out of the log; the next request tries again
+		}
+	}
+	its.ctx.L().Warnf("%d operations of %s are the beginning of a transaction whose end was never stored", len(sseqList)-n, datatypeDoc.DUID)
+	return opList[:n], sseqList[:n]
 }
 
 // completeUnits returns how many of the operations, counted from the first one, form whole units: an
@@ -366,9 +378,7 @@ func (its *PushPullHandler) pullOperations() errors.OrdaError {
 		}
 		// the beginning of a transaction that an interrupted push has left beyond the recorded end of the log
 		// is not part of the log (see recordUnrecordedOperations)
-		if n := completeUnits(opList); n < len(opList) && sseqList[n] > its.datatypeDoc.Sseq.End {
-			opList, sseqList = opList[:n], sseqList[:n]
-		}
+		opList, sseqList = its.removeIncompleteTransaction(its.datatypeDoc, opList, sseqList)
 		if len(opList) > 0 {
 			its.currentCP.Sseq = sseqList[len(sseqList)-1] + (uint64)(len(its.pushingOperations))
 			// Operations beyond the recorded end of the log were stored by a push whose datatype document was
